@@ -14,4 +14,6 @@ for e in sim/engines/*/; do
   (cd sim && go1.26.8 test -c -tags verif -overlay ../.build/overlay/overlay.json -o ../.build/bin/$e.test ./engines/$e)
   echo "built engine $e"
 done
+# pipesim is built from a source overlay with statement-level scheduling points: warm that build too
+.build/bin/vdriver -prop C08 -buildonly
 echo "setup ok"
